@@ -466,8 +466,30 @@ func execRSA(p *Plan, run *core.Run) {
 		run.Violate(comp+".Deal", "error-on-valid-parameters", "l=%d k=%d key %s e=%d: %v", l, k, p.Key, key.E, err)
 		return
 	}
-	// (if Deal accepted a key whose exponent has a prime factor <= l, the run goes on: the shares
-	// it handed out must then work like any others)
+	if eShares {
+		// Deal accepted a key whose exponent has a prime factor <= l. Demonstrate what that
+		// means before saying anything: all l players sign, the combiner combines.
+		demo := []byte("demonstration")
+		dg := sha256.Sum256(demo)
+		ph, perr := tssrsa.PadHash(&tssrsa.PKCS1v15Padder{}, crypto.SHA256, &key.PublicKey, demo)
+		if perr != nil {
+			panic("HARNESS: PadHash: " + perr.Error())
+		}
+		var sss []tssrsa.SignShare
+		for i := range shares {
+			ss, serr := shares[i].Sign(core.NewStream(p.Seed+uint64(50+i)), &key.PublicKey, ph, false)
+			if serr != nil {
+				run.Violate(comp+".Sign", "error", "%v", serr)
+				return
+			}
+			sss = append(sss, ss)
+		}
+		sig, cerr := tssrsa.CombineSignShares(&key.PublicKey, sss, ph)
+		if cerr != nil || rsa.VerifyPKCS1v15(&key.PublicKey, crypto.SHA256, dg[:], sig) != nil {
+			run.Violate(comp+".Deal", "deals-a-key-whose-exponent-divides-l-factorial", "Deal(l=%d, k=%d) accepts a key with public exponent e=%d; the shares of all %d players do not combine (%v), while crypto/rsa signs and verifies with this key", l, k, key.E, l, cerr)
+		}
+		return
+	}
 	run.T("rsa", fmt.Sprint(l), fmt.Sprint(k))
 	pub := &key.PublicKey
 	msg := core.NewPRNG(p.Seed + 3).Bytes(40)
